@@ -10,6 +10,7 @@ package main
 
 import (
 	"bytes"
+	"encoding/json"
 	"fmt"
 	"io/ioutil"
 	"math/rand"
@@ -31,8 +32,39 @@ import (
 )
 
 type coldJob struct {
-	run func() []byte // the call under observation
-	ref func() []byte // expected output: known from construction, or the same call repeated sequentially afterwards
+	run  func() []byte // the call under observation
+	ref  func() []byte // expected output: known from construction, or the same call repeated sequentially afterwards
+	snap func() string // optional: a deep rendering of the call's INPUTS (compared before / after: inputs are read-only)
+}
+
+// deepBundle renders everything a caller can see in a bundle value, field lines of headers kept apart.
+func deepBundle(b *bundle.Bundle) string {
+	type ex struct {
+		URL    string
+		Status int
+		Header map[string][]string
+		Body   []byte
+	}
+	var o struct {
+		Ver, Primary, Manifest string
+		Exs                    []ex
+		Sigs                   interface{}
+	}
+	o.Ver = string(b.Version)
+	if b.PrimaryURL != nil {
+		o.Primary = b.PrimaryURL.String()
+	}
+	if b.ManifestURL != nil {
+		o.Manifest = b.ManifestURL.String()
+	}
+	for _, e := range b.Exchanges {
+		o.Exs = append(o.Exs, ex{e.Request.URL.String(), e.Response.Status, e.Response.Header, e.Response.Body})
+	}
+	if b.Signatures != nil {
+		o.Sigs = sigsOf(b.Signatures)
+	}
+	j, _ := json.Marshal(o)
+	return string(j)
 }
 
 // par-run <substring>: family (D) alone, restricted to the entry points whose name contains the substring
@@ -41,8 +73,12 @@ func parRun(args []string) error {
 	id := 0
 	parallelColdFiltered(r, args[0], func(ser string, ref []byte, out []byte, g int) {
 		id++
+		mut := g == 0 && !bytes.Equal(ref, out) // g = 0: the deep rendering of the inputs before (ref) and after (out) the calls
+		if g == 0 {
+			ref, out = nil, nil
+		}
 		emit(map[string]interface{}{"case": fmt.Sprintf("q%d", id), "kind": "hist", "ser": ser, "mode": "parallel-cold", "sched": []int{g}, "ref": ints(ref),
-			"calls": []map[string]interface{}{{"g": g, "out": ints(out)}}, "mutated": false, "sharedcap": false})
+			"calls": []map[string]interface{}{{"g": g, "out": ints(out)}}, "mutated": mut, "sharedcap": false})
 	})
 	return nil
 }
@@ -76,14 +112,93 @@ func parallelColdFiltered(r *rand.Rand, only string, emitHist func(ser string, r
 				}
 				return buf.Bytes()
 			}
-			return coldJob{f, f}
+			return coldJob{run: f, ref: f}
+		},
+		// (E) ONE fresh object shared by all goroutines, used for the first time concurrently ("shared: " families): whatever a
+		// serializer computes lazily on first use must not be written into the caller's value
+		"shared: Bundle.WriteTo / HeaderSha256 (fresh bundle, several field lines per header)": func(i int) coldJob {
+			tag := uniq()
+			b := &bundle.Bundle{Version: []bversion.Version{bversion.VersionB2, bversion.VersionB1}[round%2]}
+			pu, _ := url.Parse("https://a.example/")
+			b.PrimaryURL = pu
+			for j := 0; j < 3; j++ {
+				u, _ := url.Parse(fmt.Sprintf("https://a.example/%d-%s", j, tag))
+				h := http.Header{}
+				h.Add("Content-Type", "text/html")
+				h.Add("Vary", "Accept-Encoding")
+				h.Add("Vary", "Accept-Language")
+				h.Add("X-"+tag, "1")
+				h.Add("X-"+tag, "")
+				h.Add("X-"+tag, "3")
+				b.Exchanges = append(b.Exchanges, &bundle.Exchange{Request: bundle.Request{URL: u}, Response: bundle.Response{Status: 200, Header: h, Body: []byte("body " + tag)}})
+			}
+			f := func() []byte {
+				var buf bytes.Buffer
+				if _, err := b.WriteTo(&buf); err != nil {
+					return []byte("error: " + err.Error())
+				}
+				hs, err := b.Exchanges[1].Response.HeaderSha256()
+				if err != nil {
+					return []byte("error: " + err.Error())
+				}
+				return append(buf.Bytes(), hs...)
+			}
+			return coldJob{run: f, ref: f, snap: func() string { return deepBundle(b) }}
+		},
+		"shared: Exchange.Write + DumpExchangeHeaders (fresh exchange, several field lines per header)": func(i int) coldJob {
+			sp := baseSpec(r, version.AllVersions[round%3])
+			sp.resph.Add("Vary", "Accept-Encoding")
+			sp.resph.Add("Vary", "Accept-Language")
+			sp.reqh.Add("Accept", "text/html")
+			se := buildSigned(sp, kc)
+			f := func() []byte {
+				var buf bytes.Buffer
+				if err := se.e.Write(&buf); err != nil {
+					return []byte("error: " + err.Error())
+				}
+				se.e.DumpExchangeHeaders(&buf)
+				return buf.Bytes()
+			}
+			return coldJob{run: f, ref: f, snap: func() string {
+				j, _ := json.Marshal([]interface{}{se.e.RequestURI, se.e.RequestHeaders, se.e.ResponseHeaders, se.e.ResponseStatus, se.e.Payload, se.e.SignatureHeaderValue})
+				return string(j)
+			}}
+		},
+		"shared: signatures Verifier.VerifyExchange (fresh signed bundle, several field lines per header)": func(i int) coldJob {
+			b := &bundle.Bundle{Version: []bversion.Version{bversion.VersionB2, bversion.VersionB1}[round%2]}
+			u, _ := url.Parse("https://a.example/s" + uniq())
+			b.PrimaryURL = u
+			body := randBytes(r, 70)
+			h := http.Header{}
+			h.Add("Content-Type", "text/plain")
+			h.Add("Vary", "Accept-Encoding")
+			h.Add("Vary", "Accept-Language")
+			b.Exchanges = []*bundle.Exchange{{Request: bundle.Request{URL: u}, Response: bundle.Response{Status: 200, Header: h, Body: append([]byte{}, body...)}}}
+			var signed []map[string]interface{}
+			nb, err := signStep(b, &bsigner{"p", []*keyCert{kc}, map[string]bool{"a.example": true}}, time.Unix(1600000000, 0), time.Hour, 16, &signed)
+			if err != nil {
+				return coldJob{run: func() []byte { return []byte("setup") }, ref: func() []byte { return []byte("setup") }}
+			}
+			// the signed bundle as a reader delivers it, and with the field lines of "Vary" kept apart as the caller had them
+			nb.Exchanges[0].Response.Header["Vary"] = []string{"Accept-Encoding", "Accept-Language"}
+			v, err := signature.NewVerifier(nb.Signatures, time.Unix(1600000100, 0), nb.Version)
+			if err != nil {
+				return coldJob{run: func() []byte { return []byte("setup") }, ref: func() []byte { return []byte("setup") }}
+			}
+			return coldJob{run: func() []byte {
+				res, err := v.VerifyExchange(nb.Exchanges[0])
+				if err != nil || res == nil {
+					return []byte(fmt.Sprintf("not verified: %v", err))
+				}
+				return res.VerifiedPayload
+			}, ref: func() []byte { return body }, snap: func() string { return deepBundle(nb) }}
 		},
 		"mice decode (own stream)": func(i int) coldJob {
 			payload := randBytes(r, 200+i*37)
 			var st bytes.Buffer
 			dg, _ := mice.Draft03Encoding.Encode(&st, payload, 16)
 			stream := st.Bytes()
-			return coldJob{func() []byte {
+			return coldJob{run: func() []byte {
 				d, err := mice.Draft03Encoding.NewDecoder(bytes.NewReader(stream), dg, 16384)
 				if err != nil {
 					return []byte("error: " + err.Error())
@@ -93,7 +208,7 @@ func parallelColdFiltered(r *rand.Rand, only string, emitHist func(ser string, r
 					return append([]byte("error after "), out...)
 				}
 				return out
-			}, func() []byte { return payload }}
+			}, ref: func() []byte { return payload }}
 		},
 		"mice encode (own payload)": func(i int) coldJob {
 			payload := randBytes(r, 100+i*29)
@@ -105,13 +220,13 @@ func parallelColdFiltered(r *rand.Rand, only string, emitHist func(ser string, r
 				}
 				return append(st.Bytes(), dg...)
 			}
-			return coldJob{f, f}
+			return coldJob{run: f, ref: f}
 		},
 		"Exchange sign + Verify (own exchange)": func(i int) coldJob {
 			sp := baseSpec(r, version.AllVersions[i%3])
 			sp.payload = randBytes(r, 50+i)
 			want := append([]byte{}, sp.payload...)
-			return coldJob{func() []byte {
+			return coldJob{run: func() []byte {
 				se := buildSigned(sp, kc)
 				if se.err != "" {
 					return []byte("error: " + se.err)
@@ -121,7 +236,7 @@ func parallelColdFiltered(r *rand.Rand, only string, emitHist func(ser string, r
 					return []byte("not verified")
 				}
 				return ret
-			}, func() []byte { return want }}
+			}, ref: func() []byte { return want }}
 		},
 		"bundle.Read (own file)": func(i int) coldJob {
 			b := &bundle.Bundle{Version: []bversion.Version{bversion.VersionB1, bversion.VersionB2}[i%2]}
@@ -139,7 +254,7 @@ func parallelColdFiltered(r *rand.Rand, only string, emitHist func(ser string, r
 				}
 				return []byte(digestOf(brecOf(rb)))
 			}
-			return coldJob{f, f}
+			return coldJob{run: f, ref: f}
 		},
 		"signatures: NewVerifier + VerifyExchange (own bundle)": func(i int) coldJob {
 			b := &bundle.Bundle{Version: bversion.VersionB2}
@@ -150,9 +265,9 @@ func parallelColdFiltered(r *rand.Rand, only string, emitHist func(ser string, r
 			var signed []map[string]interface{}
 			nb, err := signStep(b, &bsigner{"p", []*keyCert{kc}, map[string]bool{"a.example": true}}, time.Unix(1600000000, 0), time.Hour, 16, &signed)
 			if err != nil {
-				return coldJob{func() []byte { return []byte("setup") }, func() []byte { return []byte("setup") }}
+				return coldJob{run: func() []byte { return []byte("setup") }, ref: func() []byte { return []byte("setup") }}
 			}
-			return coldJob{func() []byte {
+			return coldJob{run: func() []byte {
 				v, err := signature.NewVerifier(nb.Signatures, time.Unix(1600000100, 0), nb.Version)
 				if err != nil {
 					return []byte("error: " + err.Error())
@@ -162,7 +277,7 @@ func parallelColdFiltered(r *rand.Rand, only string, emitHist func(ser string, r
 					return []byte("not verified")
 				}
 				return res.VerifiedPayload
-			}, func() []byte { return body }}
+			}, ref: func() []byte { return body }}
 		},
 		"certurl.ReadCertChain (own chain)": func(i int) coldJob {
 			ch, _ := certurl.NewCertChain(newKeyCert("p256", nil, i).certs, []byte("ocsp-"+uniq()), nil)
@@ -176,11 +291,11 @@ func parallelColdFiltered(r *rand.Rand, only string, emitHist func(ser string, r
 				}
 				return []byte(digestOf(chainOut(c)))
 			}
-			return coldJob{f, f}
+			return coldJob{run: f, ref: f}
 		},
 		"structuredheader parse + serialise (own value)": func(i int) coldJob {
 			txt := fmt.Sprintf("l%s;a=%d;b=\"s%d\";c=*AAAA*, m;z", uniq(), i, i)
-			return coldJob{func() []byte {
+			return coldJob{run: func() []byte {
 				pl, err := sh.ParseParameterisedList(txt)
 				if err != nil {
 					return []byte("error: " + err.Error())
@@ -190,7 +305,7 @@ func parallelColdFiltered(r *rand.Rand, only string, emitHist func(ser string, r
 					return []byte("error: " + err.Error())
 				}
 				return []byte(s)
-			}, func() []byte { return []byte(txt) }}
+			}, ref: func() []byte { return []byte(txt) }}
 		},
 		"cbor.Deterministic + decoder (own item)": func(i int) coldJob {
 			var buf bytes.Buffer
@@ -209,7 +324,7 @@ func parallelColdFiltered(r *rand.Rand, only string, emitHist func(ser string, r
 				bs, _ := d.DecodeByteString()
 				return []byte(fmt.Sprintf("%d %s %x", n, s, bs))
 			}
-			return coldJob{f, f}
+			return coldJob{run: f, ref: f}
 		},
 	}
 	names := []string{}
@@ -225,7 +340,15 @@ func parallelColdFiltered(r *rand.Rand, only string, emitHist func(ser string, r
 		for rep := 0; rep < 3; rep++ {
 			jobs := make([]coldJob, K)
 			for i := range jobs {
+				if i > 0 && strings.HasPrefix(name, "shared: ") {
+					jobs[i] = jobs[0]
+					continue
+				}
 				jobs[i] = mk(i)
+			}
+			before := ""
+			if jobs[0].snap != nil {
+				before = jobs[0].snap()
 			}
 			outs := make([][]byte, K)
 			var wg sync.WaitGroup
@@ -247,6 +370,10 @@ func parallelColdFiltered(r *rand.Rand, only string, emitHist func(ser string, r
 			wg.Wait()
 			for g := 0; g < K; g++ {
 				emitHist(name, jobs[g].ref(), outs[g], g+1)
+			}
+			if jobs[0].snap != nil {
+				// the inputs after the calls (rendered deeply) against the inputs before them
+				emitHist(name+" [inputs unchanged]", []byte(before), []byte(jobs[0].snap()), 0)
 			}
 		}
 	}
